@@ -318,7 +318,7 @@ UNITS.append(Unit(
 __CPROVER_ensures(__CPROVER_return_value % 128 == 0)
 __CPROVER_ensures((uint64_t)__CPROVER_return_value + sz <= ptAllocSize)
 __CPROVER_ensures(DISJ(__CPROVER_return_value, sz))
-__CPROVER_assigns(pb.nextLoc.v, g_lin_count, g_lin_old, g_lin_new, g_last_read, g_last_load_order, g_lock_held, g_fo_nonempty_at, g_fo_probe)''',
+__CPROVER_assigns(pb.nextLoc.v, g_lin_count, g_lin_old, g_lin_new, g_last_read, g_last_load_order, g_last_write_order, g_lock_held, g_fo_nonempty_at, g_fo_probe)''',
     prelude=[PB], pre_extract=PB_PRE, post_pre=PB_FO, uses=['PerBackend_nextLog2'],
     lower=[ren('std::memory_order_relaxed', 'memory_order_relaxed'),
            rx(r'(?<![\w])nextLog2\(', 'PerBackend_nextLog2(', 1, 1),
